@@ -141,9 +141,7 @@ func (s *tunnelServer) createStream(ctx context.Context, streamID int64, frame *
 	}
 	s.lastSeen = streamID
 
-	if frame.MethodName[0] == '/' {
-		frame.MethodName = frame.MethodName[1:]
-	}
+	frame.MethodName = strings.TrimPrefix(frame.MethodName, "/")
 	parts := strings.SplitN(frame.MethodName, "/", 2)
 	if len(parts) != 2 {
 		return true, status.Errorf(codes.InvalidArgument, "%s is not a well-formed method name", frame.MethodName)
